@@ -1,6 +1,6 @@
 (* C03 property theorems.  Statements + exact + Print Assumptions only. *)
 From ZV.Common Require Import Base Run.
-From ZV.C03 Require Import Model ProofsMem ProofsMixed.
+From ZV.C03 Require Import Model ProofsMem ProofsMixed ProofsZip.
 Open Scope N_scope.
 
 (* MemoryBlobStore: for EVERY history of put/put_batch/remove/get+contains+size/len issuing fewer than 2^32-1 ids,
@@ -46,3 +46,34 @@ Theorem mixed_absent :
   forall fl recs id, nlen recs <= id -> mixed_get (mixed_build fl recs) id = None.
 Proof. exact mixed_absent_proof. Qed.
 Print Assumptions mixed_absent.
+
+(* Offset-indexed store: ZipOffsetBlobStoreBuilder::add_record* ; finish ; ZipOffsetBlobStore::get.
+   For EVERY configuration (checksum level, block size, offset and sample widths, compression level), every lossless
+   record codec (zstd is a parameter) and every input the builder accepts (finish succeeds = every block's span fits
+   offset_width) whose stored content fits sample_width: record i = input i, len = number of inputs. *)
+Theorem zip_get_record :
+  forall comp decomp, (forall l d, decomp (comp l d) = Some d) ->
+  forall c ds st i,
+    zip_build comp c ds = Some st ->
+    nsum (map (fun d => nlen (stored comp c d)) ds) < 2 ^ z_sw c ->
+    (i < length ds)%nat ->
+    zip_get decomp c st (N.of_nat i) = Some (nth i ds []) /\ zip_len st = nlen ds.
+Proof. exact zip_get_record_closed. Qed.
+Check zip_get_record :
+  forall comp decomp, (forall l d, decomp (comp l d) = Some d) ->
+  forall c ds st i,
+    zip_build comp c ds = Some st ->
+    nsum (map (fun d => nlen (stored comp c d)) ds) < 2 ^ z_sw c ->
+    (i < length ds)%nat ->
+    zip_get decomp c st (N.of_nat i) = Some (nth i ds []) /\ zip_len st = nlen ds.
+Print Assumptions zip_get_record.
+
+Theorem zip_absent :
+  forall comp decomp, (forall l d, decomp (comp l d) = Some d) ->
+  forall c ds st id,
+    zip_build comp c ds = Some st ->
+    nsum (map (fun d => nlen (stored comp c d)) ds) < 2 ^ z_sw c ->
+    nlen ds <= id ->
+    zip_get decomp c st id = None /\ zip_contains st id = false.
+Proof. exact zip_absent_closed. Qed.
+Print Assumptions zip_absent.
